@@ -2,6 +2,8 @@ import XMT.Drv.Util
 import XMT.Cbk
 import XMT.Dns
 import XMT.Wrap
+import XMT.HexCodec
+import XMT.B64Codec
 namespace XMT.Drv.C07
 open XMT XMT.Drv
 
@@ -78,6 +80,23 @@ def parseLayers (s : String) : Option (List Wrap.Layer) :=
 def eqMasked (impl lo hi : Bytes) : Bool :=
   impl.length = lo.length ∧ (List.zip impl (List.zip lo hi)).all fun (x, l, h) => l ≠ h ∨ x = l
 
+/-! extension round 3: concrete hex / base64 codecs (XMT/HexCodec.lean, XMT/B64Codec.lean) -/
+def showHErr : Option HexCodec.HErr → String
+  | none => "nil" | some .eof => "eof" | some .ueof => "ueof" | some .length => "length"
+  | some (.invalidByte b) => s!"invalid:{b.toNat}"
+
+def showBErr : Option B64Codec.BErr → String
+  | none => "nil" | some .eof => "eof" | some .ueof => "ueof" | some .corrupt => "corrupt"
+
+/-- layer spec of round 3: `hex` | `b64` | the specs of `parseLayer` -/
+def parseLayer3 (s : String) : Option Wrap.Layer :=
+  if s = "hex" then some HexCodec.hexLayer
+  else if s = "b64" then some B64Codec.b64Layer
+  else parseLayer s
+
+def parseLayers3 (s : String) : Option (List Wrap.Layer) :=
+  if s = "." then some [] else (splitOn1 s ',').mapM parseLayer3
+
 def handle (args : List String) : String :=
   match args with
   | ["cbkw", a, b, c, d, sz, chunks] =>
@@ -150,6 +169,48 @@ def handle (args : List String) : String :=
     | _, _ => "bad-op"
   | ["stackr", layers, wire] =>
     match parseLayers layers, ofHex wire with
+    | some ls, some w =>
+      match Wrap.multiUnwrap ls w with
+      | some b => s!"ok {hexOrDash b}"
+      | none => "fail"
+    | _, _ => "bad-op"
+  | ["hexw", chunks] =>
+    match parseChunks chunks with
+    | some ws => s!"ok {showChunks (HexCodec.hexLayer.run ws)}"
+    | none => "bad-op"
+  | ["hexr", eof, wire, ks] =>
+    match parseChunks wire, (splitOn1 ks ',').mapM natOf with
+    | some cs, some ks =>
+      let r := HexCodec.readSeq HexCodec.Dec.init { pieces := cs, withEOF := eof = "1" } ks
+      s!"ok {showChunks r.1} {showHErr r.2}"
+    | _, _ => "bad-op"
+  | ["b64ew", chunks] =>
+    match parseChunks chunks with
+    | some ws => s!"ok {showChunks (B64Codec.b64Layer.run ws)}"
+    | none => "bad-op"
+  | ["b64er", eof, wire, ks] =>
+    match parseChunks wire, (splitOn1 ks ',').mapM natOf with
+    | some cs, some ks =>
+      let r := B64Codec.readSeq B64Codec.Dec.init { pieces := cs, withEOF := eof = "1" } ks
+      s!"ok {showChunks r.1} {showBErr r.2}"
+    | _, _ => "bad-op"
+  | ["b64tw", shift, payload] =>
+    match u8Of shift, ofHex payload with
+    | some s, some p => s!"ok {hexOrDash (B64Codec.transformWrite s p)}"
+    | _, _ => "bad-op"
+  | ["b64td", shift, text] =>
+    match u8Of shift, ofHex text with
+    | some s, some p =>
+      match B64Codec.transformRead s p with
+      | some b => s!"ok {hexOrDash b}"
+      | none => s!"err {showBErr (B64Codec.decode p).2}"
+    | _, _ => "bad-op"
+  | ["stackw3", layers, chunks] =>
+    match parseLayers3 layers, parseChunks chunks with
+    | some ls, some ws => s!"ok {hexOrDash ((Wrap.multiWrap ls Wrap.sink).run ws)}"
+    | _, _ => "bad-op"
+  | ["stackr3", layers, wire] =>
+    match parseLayers3 layers, ofHex wire with
     | some ls, some w =>
       match Wrap.multiUnwrap ls w with
       | some b => s!"ok {hexOrDash b}"
